@@ -6,6 +6,8 @@ import (
 	"sync"
 	"time"
 
+	"gitlab.com/gomidi/midi/v2/drivers"
+
 	"verif/harness/gen"
 	"verif/harness/mon"
 	"verif/harness/ref"
@@ -390,6 +392,47 @@ func runC06(c *mon.Ctx) {
 		}
 		c.Enumerated(1)
 	})
+
+	// thorough only (about 20 s of CPU): one sysex whose data run is longer than 2^32 bytes, streamed in 1 MiB
+	// chunks: it exceeds every buffer, is dropped at its F7, and what follows is decoded exactly
+	if c.Thorough() {
+		c.Each("sysex-beyond-2^32-bytes", 1, func(_ int64, r *mon.Rand) {
+			var got [][]byte
+			rd := drivers.NewReader(drivers.ListenConfig{SysEx: true, TimeCode: true, ActiveSense: true}, func(m []byte, ts int32) {
+				kind, n := normL1(m)
+				if kind != "strayF7" {
+					got = append(got, append([]byte(nil), n...))
+				}
+			})
+			blk := make([]byte, 1<<20)
+			for j := range blk {
+				blk[j] = byte(1 + j%100)
+			}
+			in := "90 3C 40, F0, 2^32+5 data bytes, F7, 80 3C 00, F8"
+			if c.Guard("panic:reader", in, func() {
+				rd.EachMessage([]byte{0x90, 0x3C, 0x40, 0xF0}, 1)
+				for k := 0; k < 4096; k++ {
+					rd.EachMessage(blk, 1)
+				}
+				rd.EachMessage([]byte{1, 2, 3, 4, 5, 0xF7, 0x80, 0x3C, 0x00, 0xF8}, 1)
+			}) {
+				return
+			}
+			c.Count("sysex_beyond_2^32_streams", 1)
+			want := [][]byte{{0x90, 0x3C, 0x40}, {0x80, 0x3C, 0x00}, {0xF8}}
+			ok := len(got) == len(want)
+			for k := 0; ok && k < len(want); k++ {
+				ok = bytes.Equal(got[k], want[k])
+			}
+			if !ok {
+				var gl []string
+				for _, m := range got {
+					gl = append(gl, mon.Hex(head(m, 12)))
+				}
+				c.Violation("l1-vs-receiver", fmt.Sprintf("a sysex with 2^32+5 data bytes (larger than any buffer): deliveries %v, expected the note before it, and the note and the clock after it", gl), in, mon.HexList(want), gl)
+			}
+		})
+	}
 
 	// independent Reader objects used from 8 goroutines at once must not interfere
 	c.Each("concurrent-readers", c.N(8, 200), func(i int64, r *mon.Rand) {
